@@ -1,0 +1,22 @@
+//go:build verif
+
+/*
+ Copyright (c) Facebook, Inc. and its affiliates.
+
+ This source code is licensed under the MIT license found in the
+ LICENSE file in the root directory of this source tree.
+*/
+
+package tacquito
+
+import "net"
+
+// SetClientConn attaches an already established net.Conn to the client instead of dialing.
+// It only exists under the verif build tag: the verification harness uses it to run the
+// client over a simulated transport.
+func SetClientConn(conn net.Conn, secret []byte) ClientOption {
+	return func(c *Client) error {
+		c.crypter = newCrypter(secret, conn, false)
+		return nil
+	}
+}
